@@ -287,6 +287,30 @@ def run(F, rep):
                        site=L["site"], key="C08-H6 | %s | load loop" % f.key)
         rep.floor("C08-H6", nl, 6, "lazy-load loops over contig batches")
 
+    # ------------------------------------------------------------ H7: the belief behind the `reader` entry of the allow-list
+    # "every read seeks to an absolute offset first": in each function that reads part bytes, the read is dominated by a
+    # seek to SeekFrom::Start(<offset of the part>) on the same reader, on every path (no remembered position).
+    nrd = 0
+    for k, f in F.funcs.items():
+        if not k.startswith("ragc_common::archive::Archive::") or f.kind == "promoted":
+            continue
+        reads = [(bi, t) for bi, t in f.calls() if not t.get("indirect") and (re.search(r"Read>?::read_exact$|Read>?::read$|Read>?::read_to_end$", t["callee"]) or t["callee"].endswith("varint::read_varint"))]
+        if not reads:
+            continue
+        exf = Exprs(f)
+        gf = cfg_of(f)
+        seeks = [(bi, t) for bi, t in f.calls() if not t.get("indirect") and re.search(r"Seek>?::seek$", t["callee"])]
+        starts = [bi for bi, t in seeks if re.search(r"SeekFrom::(Start|End)", fmt(exf.operand(t["args"][1])))]
+        for bi, t in reads:
+            src = fmt(exf.operand(t["args"][0]))
+            if "cursor" in src.lower() or "Cursor" in f.locals[t["args"][0]["pl"]["l"]]["ty"]:
+                continue        # parsing an in-memory buffer
+            nrd += 1
+            ok = any(gf.dominates(s, bi) for s in starts)
+            rep.ob("C08-H7", "read in %s is preceded on every path by an absolute seek (the reader keeps no position between queries)" % k.rsplit("::", 1)[-1], ok,
+                   detail="%d absolute seeks in the function" % len(starts), site=site_of(f, t), key="C08-H7 | %s | absolute seek before %s" % (k, t["callee"].rsplit("::", 1)[-1]))
+    rep.floor("C08-H7", nrd, 3, "file reads in the archive reader")
+
     # ------------------------------------------------------------ H3
     fillers = {}
     readers = {}
